@@ -50,6 +50,8 @@ def _jobs(tier, seed):
     # lookahead propagation through chains of nullable nonterminals (gen.epschain_family)
     for g in gen.epschain_family(limit=p["neps"]):
         jobs.append({"g": g, "origin": "det", "start": "main", "budget": p["budget"]})
+    for g in gen.ctx_family():
+        jobs.append({"g": g, "origin": "det", "start": "main", "budget": p["budget"]})
     rng = random.Random(7000003 * (seed + 1))
     k = 0
     while k < p["nrand"]:
